@@ -1,6 +1,7 @@
 import Driver.C18
 import Driver.C05
 import Driver.C01
+import Driver.C03
 open Lean Driver
 
 def dispatch (j : Json) : R Json := do
@@ -10,6 +11,7 @@ def dispatch (j : Json) : R Json := do
   | "C18" => Driver.C18.handle op j
   | "C05" => Driver.C05.handle op j
   | "C01" => Driver.C01.handle op j
+  | "C03" => Driver.C03.handle op j
   | _ => throw s!"unknown property {p}"
 
 partial def loop (h : IO.FS.Stream) (out : IO.FS.Stream) : IO Unit := do
